@@ -50,6 +50,22 @@ def run_batch(job):
         h = ep.handler
         if not hsmsrun.establish(s, ep):
             raise Machinery("could not establish communication")
+        if bid % 5 == 3:
+            # communication is given up through the API and established again (once or twice) before the messages arrive
+            for _ in range(1 + bid % 2):
+                dn = {"v": False}
+
+                def cyc(dn=dn):
+                    h.disable()
+                    dn["v"] = True
+
+                simrt.Thread(target=cyc, name="app_disable").start()
+                okd, whyd = s.run_until(lambda: dn["v"], max_dt=60)
+                if not okd:
+                    raise Machinery(f"disable() did not return in the C08 run: {whyd}")
+                s.advance(0.5)
+                if not hsmsrun.establish(s, ep):
+                    raise Machinery("could not establish communication again after disable()/enable()")
 
         def p_reply(handler, message):
             return handler.stream_function(message.header.stream, message.header.function + 1)()
@@ -257,7 +273,7 @@ def run(ctx: Ctx):
     c04_trace.check(ctx, wd, pmap, only_plain=True)
     ctx.rule = ("inbound messages = every catalogued S/F x W x body class + uncatalogued S/F pairs (thorough: all) + probe callbacks, "
                 "shuffled into long sequences on host and equipment handlers, system bytes incl. boundary values and values the handler "
-                "itself used before (a timed-out and an answered transaction of its own); in every fourth batch all primaries carry the same system bytes (the peer's previous, closed transaction); in every fourth batch 2-3 messages arrive in "
+                "itself used before (a timed-out and an answered transaction of its own); in every fifth batch communication is given up with disable() and established again before the messages arrive; in every fourth batch all primaries carry the same system bytes (the peer's previous, closed transaction); in every fourth batch 2-3 messages arrive in "
                 "one segment under random / PCT schedules with line-level preemption in the dispatcher loop; non-trivial = distinct (role,S,F,W,body) that "
                 "produced an answer")
     ctx.extra["inbound_with_reused_system_bytes"] = sum(1 for r_ in recs if r_.get("reused_system"))
